@@ -61,12 +61,13 @@ def stepC08 (s : S08) (ws : List String) : S08 × Resp :=
     let tr := rest.getD 2 "0" == "1"
     ({ scaled := sc, track := tr }, { model := "ok" })
   | ["d", hs] => ({ s with dsets := s.dsets ++ [natList hs] }, { model := "ok" })
+  | "d" :: _ => (s, { model := "bad-op" })
   | "q" :: hs :: rest =>
     let hs := natList hs
     let ab := natList (rest.getD 0 "-")
     let ab := if s.track && ab.length == hs.length then ab else hs.map (fun _ => 1)
     ({ s with q := hs.zip ab }, { model := "ok" })
-  | [op, t] =>
+  | op :: t :: _ =>
     let t := t.toNat!
     if s.dsets.isEmpty then (s, { model := "no-datasets" }) else
     let rows := Gather.gather (cfgOf s t)
